@@ -1,7 +1,7 @@
 (* Properties/C15.v — Response / Error envelope accepts and preserves every spec-shaped body.
    `Response`, `Error`, `Location`, `PathFragment` are the declarations TRANSLATED from
    graphql_client/src/lib.rs on this run (Gen/LibTypes.v); `Data` is opaque JSON. *)
-From GC Require Import Base Rust Json Enums Serde SerdeLemmas RunSerde Envelope EnvelopeProofs.
+From GC Require Import Base Rust Json Enums Serde SerdeLemmas RunSerde Envelope EnvelopeProofs EnvelopeRoundTrip.
 From GC.Gen Require Import LibTypes.
 
 (* every body of the envelope grammar — `data` present / null / absent, `errors` absent or a
@@ -16,6 +16,32 @@ Proof. exact response_accepts_FUEL. Qed.
 Theorem C15_display : forall e, error_ok e = true ->
   exists v, deser henv FUEL lib_items (RNamed "Error") e = Some v /\ display_error v = display_spec e.
 Proof. intros e H. change FUEL with (6 + 394). exact (error_display 394 e H). Qed.
+
+(* "preserves all of it": deserialize (serialize r) = r for EVERY Response value and EVERY
+   Error value.  Envelope.wt_response / wt_error say which trees are values of the Rust types
+   (i32 members, HashMap = key-sorted entries, Data = any JSON but null). *)
+Theorem C15_round_trip_response : forall r, wt_response r = true ->
+  exists j, ser FUEL lib_items (RNamed "Response") r = Some j /\
+            deser henv FUEL lib_items (RNamed "Response") j = Some r.
+Proof. exact response_round_trip. Qed.
+
+Theorem C15_round_trip_error : forall e, wt_error e = true ->
+  exists j, ser FUEL lib_items (RNamed "Error") e = Some j /\
+            deser henv FUEL lib_items (RNamed "Error") j = Some e.
+Proof. exact error_round_trip. Qed.
+
+(* the domain of the round trip is not an artefact: whatever the deserialiser returns — for
+   any input at all, object or positional array, unknown or repeated members — lies in it *)
+Theorem C15_every_deserialised_value_is_a_value : forall b r,
+  deser henv FUEL lib_items (RNamed "Response") b = Some r -> wt_response r = true.
+Proof. exact response_values_wt. Qed.
+
+(* ... hence a body, once accepted, survives re-serialisation and re-reading unchanged *)
+Theorem C15_accepted_body_preserved : forall b r,
+  deser henv FUEL lib_items (RNamed "Response") b = Some r ->
+  exists j, ser FUEL lib_items (RNamed "Response") r = Some j /\
+            deser henv FUEL lib_items (RNamed "Response") j = Some r.
+Proof. exact accepted_body_preserved. Qed.
 
 (* regression theorem for the repaired defect (trim_end_matches('/') ate the key's own slash) *)
 Theorem C15_display_prefix_refuted :
@@ -36,9 +62,25 @@ Example C15_body_example :
            ("unknown", JBool true)]) = true.
 Proof. vm_compute. reflexivity. Qed.
 
+Example C15_value_example :
+  wt_response (VStruct [("data", VSome (VJson (JObj [("a", JInt 1)])));
+     ("errors", VSome (VSeq [VStruct [("message", VStr "m");
+        ("locations", VSome (VSeq [VStruct [("line", VInt 1); ("column", VInt 2)]]));
+        ("path", VSome (VSeq [VVariant "Key" (Some (VStr "a")); VVariant "Index" (Some (VInt 3))]));
+        ("extensions", VSome (VMap [("a", VJson JNull); ("b", VJson (JArr [JInt 1]))]))]]));
+     ("extensions", VNone)]) = true.
+Proof. exact wt_response_example. Qed.
+
 Check C15_accepts_every_spec_body : forall b, body_ok b = true ->
   exists r, deser henv FUEL lib_items (RNamed "Response") b = Some r.
 Print Assumptions C15_accepts_every_spec_body.
+Check C15_round_trip_response : forall r, wt_response r = true ->
+  exists j, ser FUEL lib_items (RNamed "Response") r = Some j /\
+            deser henv FUEL lib_items (RNamed "Response") j = Some r.
+Print Assumptions C15_round_trip_response.
+Print Assumptions C15_round_trip_error.
+Print Assumptions C15_every_deserialised_value_is_a_value.
+Print Assumptions C15_accepted_body_preserved.
 Print Assumptions C15_display.
 Print Assumptions C15_display_prefix_refuted.
 Print Assumptions C15_translated_declarations.
